@@ -55,6 +55,19 @@ def write_replay(prop, name, body):
     return path
 
 
+def wait_for_memory(need_gb=16, max_wait_s=900):
+    """a solver killed for memory next to other jobs is retried only when the machine has room again (bounded wait)"""
+    t0 = time.time()
+    while time.time() - t0 < max_wait_s:
+        try:
+            avail = int(re.search(r"MemAvailable:\s+(\d+)", open("/proc/meminfo").read()).group(1)) / 1e6
+        except Exception:
+            return
+        if avail >= need_gb:
+            return
+        time.sleep(20)
+
+
 def run_twin(scratch, twin, out_file):
     """bounded twin: native exhaustive run of the real code against a reference model (cfg(verif_replay) test)."""
     env = dict(os.environ, CARGO_NET_OFFLINE="true", RUSTFLAGS="--cfg verif_replay", VERIF_TWIN_OUT=out_file,
@@ -168,6 +181,7 @@ def main(argv):
             retry = [h for h in harnesses if h not in results or results[h]["status"] not in ("ok", "fail")]
             if retry and len(harnesses) > 1:
                 for h in retry:
+                    wait_for_memory()
                     r2 = kx.run_kani(scratch, [h], jobs=1, timeout_s=int(plan.get("harness_timeout_s", 1500)) * 2)
                     if h in r2["results"]:
                         results[h] = r2["results"][h]
